@@ -1,0 +1,1 @@
+//! Hooks for property C13 (empty unless needed).
